@@ -14,14 +14,18 @@ def run (j : Json) : Except String Json := do
   let ignore ← j.getObjValAs? Bool "ignore_missing"
   let implObs ← obsOfJson (← j.getObjVal? "impl")
   let root := if c.sroot then c.sref else c.target
-  let out := delete c.env c.sroot c.sref ignore c.heap c.target c.steps
+  -- `Delete.__init__`: the path it keeps (first step of an S-rooted path re-spelled per the extracted
+  -- table); the prescription follows the path as it is read (`S.a` ≡ `S['a']`)
+  let kept := initPath (genSFirst "Delete") c.sroot c.steps
+  let refSteps := readSteps c.sroot c.steps
+  let out := delete c.env c.sroot c.sref ignore c.heap c.target kept
   let modelObs := C12.observe c.env out
-  let ref := refDelete c.env c.heap root c.steps ignore
+  let ref := refDelete c.env c.heap root refSteps ignore
   if ref == .unsupported || (match out.2 with | .error .unmodelled => true | _ => false) then
     return Json.mkObj [("skip", true), ("why", "path outside the modelled domain (`**`)")]
   let agree := modelObs == implObs
-  let holds := checkC12 c.env c.heap c.target root c.steps ignore implObs
-  let modelHolds := checkC12 c.env c.heap c.target root c.steps ignore modelObs
+  let holds := checkC12 c.env c.heap c.target root refSteps ignore implObs
+  let modelHolds := checkC12 c.env c.heap c.target root refSteps ignore modelObs
   let star := hasStar c.steps
   let cov := C12.covered c.env c.steps
   let covStar := star && C12.WF c.env && classesOK c.env && noScope c.env && wfStar c.steps
